@@ -174,12 +174,12 @@ func parseCase(raw json.RawMessage) (Case, *gram.Grammar, error) {
 }
 
 // eachGrammarPlaced runs eachGrammar with the file alone over the full spaces, and then again with the file as
-// second file of a set (reader created after / before the file was added) over the seed corpus and the grammars
+// second file of a set (reader created after / before the file was added; file re-registered in a fresh set) over the seed corpus and the grammars
 // of at most 3 nodes: what the reader and the file know about their own position must not matter.
 func eachGrammarPlaced(env *explore.Env, res *explore.Result, specs []spaceSpec, seeds []Case,
 	fn func(g *gram.Grammar, inputs [][]byte, fromSeed bool)) {
 	defer func() { impl.Placement = 0 }()
-	for pl := 0; pl <= 2; pl++ {
+	for pl := 0; pl <= 3; pl++ {
 		impl.Placement = pl
 		use := specs
 		if pl > 0 {
